@@ -2,9 +2,9 @@ import PsV.Proofs.Alloc
 /-!
 # C19 — estimateMemory bounds the memory requested while loading and convolving
 
-Property theorems only.  `readEvents`, `convolveEvents`, `estimate` are the definitions the driver executes;
-their call sites, size expressions and the terms of `estimate` are regenerated from the source on every run
-(`PsV.Generated.C19`), so these theorems are re-checked against what the code says now.
+Property theorems only.  `readEvents`, `convolveEvents`, `estimate`, `loadable` are the definitions the driver
+executes; their call sites, size expressions, conditions and the terms of `estimate` are regenerated from the source
+on every run (`PsV.Generated.C19`), so these theorems are re-checked against what the code says now.
 -/
 namespace PsV
 open PsV.C19 PsV.Generated.C19
@@ -15,31 +15,35 @@ structure C19.Valid (p : Params) : Prop where
   n_pos : 1 ≤ p.n
   /-- the convolved dimension exists (so the table has at least one dimension) -/
   cdim_lt : p.cdim < p.dims.length
-  /-- key and value of an auxiliary entry come from one 80-column card: `strlen(key)+strlen(value) ≤ 80`
+  /-- key and raw value of an auxiliary entry come from one 80-column card: `strlen(key)+strlen(value) ≤ 80`
       (checked on every generated file at run time); with the two terminators that is 82 -/
   card : ∀ a ∈ p.aux, a.keylen + a.vallen ≤ 82
+  /-- the stored string is the raw card value with characters removed (enclosing quotes, one of every doubled
+      quote), never longer (checked on every generated file at run time) -/
+  stored_le : ∀ a ∈ p.aux, a.storedlen ≤ a.vallen
   /-- in the convolved dimension the coefficient image has the size the knot vector implies
-      (`naxes = nknots − order − 1`; files written by `write_fits` satisfy it in every dimension) -/
+      (`naxes = nknots − order − 1`).  `read_fits_core` now rejects every file for which this fails in any dimension
+      (`C19_loadable_consistent`), so for a file that can be loaded at all this is not an assumption. -/
   consistent : ∀ d, p.dims[p.cdim]? = some d → d.naxes + d.order + 1 = d.nknots
 
 /-- **C19.**  For every table file and every convolution declared to `estimateMemory` (kernel of `n ≥ 1` knots in an
     existing dimension), the table object plus the bytes simultaneously requested from the table's allocator at any
     moment while constructing the table from the file and then convolving it never exceed the value
-    `estimateMemory` returns; and no `deallocate` releases more than is live. -/
+    `estimateMemory` returns; and no `deallocate` releases more than is live.  This includes the moment at which, for a
+    quoted auxiliary value, the block of the raw card length and its exact-size replacement are both live. -/
 theorem C19_peak_le_estimate (p : Params) (h : C19.Valid p) :
     balanced 0 (readEvents p ++ convolveEvents p) = true ∧
     p.objsize + peak (readEvents p ++ convolveEvents p) ≤ estimate p := by
-  obtain ⟨hb, hp, _⟩ := peak_read_convolve p
+  obtain ⟨hb, hp, _⟩ := read_convolve_run p 82 (fun a ha => by have := h.card a ha; omega)
   refine ⟨hb, ?_⟩
-  rw [hp, read_bytes, convFrees_bytes, convAllocs_bytes]
   have hest := estimateWith_ge (nauxCounted p.aux.length p.nauxKnotsHdu) p
   rw [estDims_eq_convDims p h.n_pos] at hest
-  have haux := auxBytes_le p.aux h.card
+  have haux := auxBytes_le p.aux h.card h.stored_le
   have hk : knotBytes p.dims ≤ knotBytes (convDims p) :=
     knotBytes_adjustAt_ge _ (convDim_knots_ge p.n h.n_pos) _ _
   have hc : prodNaxes p.dims ≤ prodNaxes (convDims p) :=
     prodNaxes_adjustAt_ge _ _ _ (fun d hd => convDim_naxes_ge p.n h.n_pos d (h.consistent d hd))
-  simp only [estimate, nauxCounted] at *
+  simp only [estimate, nauxCounted, readBytes, convolvedBytes] at *
   omega
 
 /-- **C19, loading only.**  The same value also bounds the load alone (whatever convolution was declared), in
@@ -52,20 +56,55 @@ theorem C19_peak_read_le_estimate (p : Params) (h : C19.Valid p) :
   omega
 
 /-- After load-then-convolve exactly the footprint of the convolved table is live: what `convolve` releases is
-    what the reader requested for coefficients and knots, no more and no less. -/
+    what the reader requested for coefficients and knots, and of the two blocks requested for a quoted auxiliary
+    value only the exact-size one (`storedlen`) remains. -/
 theorem C19_live_after_convolve (p : Params) :
     liveAfter 0 (readEvents p ++ convolveEvents p) =
-      8 * p.aux.length + auxBytes p.aux + 68 * p.dims.length + 4 * prodNaxes (convDims p) + knotBytes (convDims p) := by
-  rw [(peak_read_convolve p).2.2, read_bytes, convFrees_bytes, convAllocs_bytes]; omega
+      8 * p.aux.length + auxBytes p.aux + 68 * p.dims.length + 4 * prodNaxes (convDims p) + knotBytes (convDims p) :=
+  live_after_read_convolve p
 
-/-- a 3-dimensional table (orders 2,0,3), 2 auxiliary entries, a 4-knot kernel in dimension 2 -/
+/-- **The reader guarantees `Valid.consistent`.**  A file whose shape passes the validation of `read_fits_core`
+    (generated predicate `readerRejects`, evaluated per dimension by `loadable`) has, in every dimension and hence in
+    the convolved one, a coefficient axis of exactly `nknots − order − 1` entries and at least `2·order + 2` knots. -/
+theorem C19_loadable_consistent (p : Params) (hl : loadable p = true) :
+    ∀ (c : Nat) (d : Dim), p.dims[c]? = some d → d.naxes + d.order + 1 = d.nknots ∧ 2 * d.order + 2 ≤ d.nknots := by
+  intro c d hd
+  have hmem : d ∈ p.dims := List.mem_of_getElem? hd
+  have := List.all_eq_true.mp hl d hmem
+  simp [readerRejects] at this
+  omega
+
+/-- **The argument checks of `convolve` are `Valid.n_pos` and `Valid.cdim_lt`.** -/
+theorem C19_convolvable_iff (p : Params) : convolvable p = true ↔ (1 ≤ p.n ∧ p.cdim < p.dims.length) := by
+  simp [convolvable, convolveRejects]
+  omega
+
+/-- **C19 for every file the reader accepts and every convolution `convolve` accepts**: no consistency assumption is
+    left; what remains assumed is that an auxiliary entry comes from one 80-column card. -/
+theorem C19_peak_le_estimate_loadable (p : Params) (hl : loadable p = true) (hc : convolvable p = true)
+    (card : ∀ a ∈ p.aux, a.keylen + a.vallen ≤ 82) (stored_le : ∀ a ∈ p.aux, a.storedlen ≤ a.vallen) :
+    balanced 0 (readEvents p ++ convolveEvents p) = true ∧
+    p.objsize + peak (readEvents p ++ convolveEvents p) ≤ estimate p :=
+  C19_peak_le_estimate p
+    ⟨((C19_convolvable_iff p).mp hc).1, ((C19_convolvable_iff p).mp hc).2, card, stored_le,
+     fun d hd => (C19_loadable_consistent p hl p.cdim d hd).1⟩
+
+/-- a 3-dimensional table (orders 2,0,3), 3 auxiliary entries (a quoted string with a doubled quote, a number, a
+    full-width quoted string), a 4-knot kernel in dimension 2 -/
 def C19.exampleParams : Params :=
-  { objsize := 96, dims := [⟨2, 9, 6⟩, ⟨0, 4, 3⟩, ⟨3, 12, 8⟩], aux := [⟨5, 11⟩, ⟨30, 52⟩], nauxKnotsHdu := 4, n := 4, cdim := 2 }
+  { objsize := 96, dims := [⟨2, 9, 6⟩, ⟨0, 4, 3⟩, ⟨3, 12, 8⟩], aux := [⟨5, 12, 9⟩, ⟨7, 3, 3⟩, ⟨9, 71, 69⟩], nauxKnotsHdu := 4, n := 4, cdim := 2 }
 
-/-- the hypotheses are satisfiable by a non-trivial value, and the bound is not vacuous on it -/
-example : C19.Valid C19.exampleParams ∧ peak (readEvents C19.exampleParams ++ convolveEvents C19.exampleParams) = 3918 ∧
+/-- the hypotheses are satisfiable by a non-trivial value (also in the `loadable`/`convolvable` form), and the bound
+    is not vacuous on it -/
+example : C19.Valid C19.exampleParams ∧ loadable C19.exampleParams = true ∧ convolvable C19.exampleParams = true ∧
+    peak (readEvents C19.exampleParams ++ convolveEvents C19.exampleParams) = 3946 ∧
     estimate C19.exampleParams = 6144 :=
-  ⟨⟨by decide, by decide, by decide, by intro d hd; simp [C19.exampleParams] at hd; subst hd; decide⟩, by decide, by decide⟩
+  ⟨⟨by decide, by decide, by decide, by decide, by intro d hd; simp [C19.exampleParams] at hd; subst hd; decide⟩,
+   by decide, by decide, by decide, by decide⟩
+
+/-- the transient is real: while the second card of this file is read more bytes are live (8 + 16+9+71+69 = 173)
+    than remain after loading its aux part (8 + 16+9+69 = 102) -/
+example : peakFrom 0 (.alloc 8 :: auxSeg ⟨9, 71, 69⟩) = 173 ∧ liveAfter 0 (.alloc 8 :: auxSeg ⟨9, 71, 69⟩) = 102 := by decide
 
 set_option maxRecDepth 8192 in
 /-- Why the auxiliary cards must be counted in the primary header: had `estimateMemory` used the number of
@@ -73,17 +112,20 @@ set_option maxRecDepth 8192 in
     before the fix, because the call came after the loop that moves to the knot extensions), a 1-dimensional table
     with 20 full-width auxiliary cards exceeds the estimate already while loading. -/
 theorem C19_knots_hdu_count_underestimates :
-    ∃ p : Params, C19.Valid p ∧ estimateWith p.nauxKnotsHdu p < p.objsize + peak (readEvents p) :=
-  ⟨{ objsize := 96, dims := [⟨0, 2, 1⟩], aux := List.replicate 20 ⟨9, 71⟩, nauxKnotsHdu := 4, n := 1, cdim := 0 },
-   ⟨by decide, by decide, by decide, by intro d hd; simp at hd; subst hd; decide⟩, by decide⟩
+    ∃ p : Params, C19.Valid p ∧ loadable p = true ∧ estimateWith p.nauxKnotsHdu p < p.objsize + peak (readEvents p) :=
+  ⟨{ objsize := 96, dims := [⟨0, 2, 1⟩], aux := List.replicate 20 ⟨9, 71, 69⟩, nauxKnotsHdu := 4, n := 1, cdim := 0 },
+   ⟨by decide, by decide, by decide, by decide, by intro d hd; simp at hd; subst hd; decide⟩, by decide, by decide⟩
 
-/-- Why `Valid.consistent` is needed: `estimateMemory` recomputes the coefficient axis of the convolved dimension
-    from the knot count, the reader takes it from the image header and does not compare the two.  A file whose
-    image is larger than `nknots − order − 1` along that axis is loaded but exceeds the estimate. -/
-theorem C19_inconsistent_file_exceeds :
+/-- Why `Valid.consistent` is needed for the inequality, and why it costs nothing any more: `estimateMemory`
+    recomputes the coefficient axis of the convolved dimension from the knot count while the reader takes it from the
+    image header.  For a file whose image is larger than `nknots − order − 1` along that axis the requests of the
+    call sites would exceed the estimate — but the reader's validation (`readerRejects`, generated from the source)
+    refuses exactly such a file, so it is never loaded.  (Before the reader compared the two numbers this was a
+    defect: the file was loaded and exceeded the estimate.) -/
+theorem C19_inconsistent_file_rejected :
     ∃ p : Params, 1 ≤ p.n ∧ p.cdim < p.dims.length ∧ (∀ a ∈ p.aux, a.keylen + a.vallen ≤ 82) ∧
-      estimate p < p.objsize + peak (readEvents p) :=
+      estimate p < p.objsize + peak (readEvents p) ∧ loadable p = false :=
   ⟨{ objsize := 96, dims := [⟨2, 10, 1000⟩], aux := [], nauxKnotsHdu := 4, n := 1, cdim := 0 },
-   by decide, by decide, by decide, by decide⟩
+   by decide, by decide, by decide, by decide, by decide⟩
 
 end PsV
